@@ -10,6 +10,8 @@ ValueError for an interval inside the assembly.  What does hold (sum up to 1e-10
 native reproduction (plain armi):
   blocks of 10, 10 cm:  getBlocksBetweenElevations(10.0 - 5e-10, 15.0) -> [(block1, 5.0)]: sum 5.0, length 5.0000000005
   blocks of 1, 1, 100001, 1 cm: getBlocksBetweenElevations(50002.0 - 1.000005e-5, 50002.0) -> ValueError
+(3) Assembly.setBlockMesh on a ONE-block assembly does nothing (a warning is logged): the block's topIndex 0 is read as the
+    marker "excluded from the uniform mesh".   native: one block of 10 cm, setBlockMesh([25.0]) -> height stays 10.0.
 run: python3-vt -m pyvc.run contracts/pending/C11_assembly_finding.py -v
 """
 from spec import *
@@ -50,3 +52,16 @@ def blocks_between_elevations_sum_exactly_to_the_interval(n: int, h0: float, h1:
         assert h > 0
         total = total + h
     assert eq(total, zu - zl), "overlap heights sum to the length of the interval"
+
+
+@lemma(gen={"h0": (0.5, 80.0), "m0": (0.5, 80.0)})
+def single_block_assembly_is_snapped_to_the_mesh(h0: float, m0: float):
+    assume(h0 > 0 and m0 > 0)
+    b = new(HexBlock, p=new(PMap, height=h0, zbottom=0.0, ztop=h0, z=h0 / 2.0, flags=None, type="b", xsType="A", envGroup="A", topIndex=0),
+            _children=[], name="b", parent=None, spatialLocator=None, cached={})
+    a = new(HexAssembly, _children=[b], p=new(PMap, assemNum=1, type="A"), name="A", parent=None, spatialGrid=None, spatialLocator=None)
+    b.parent = a
+    a.reestablishBlockOrder()
+    a.calculateZCoords()
+    a.setBlockMesh([m0], conserveMassFlag=False)
+    assert eq(b.p.height, m0) and eq(b.p.ztop, m0), "the block spans [0, mesh[0]]"
